@@ -166,6 +166,18 @@ fn scale_case_inner(w: &mut crate::engine::Worker, name: &str, text: &str, expec
     }
 }
 
+/// Characters that do not show: byte order mark, zero-width characters, soft hyphen, directional marks,
+/// variation selector, a combining mark, a tag character, the C0 and C1 controls, DEL, the replacement
+/// character and the last code points of the planes.
+pub fn invisible_chars() -> Vec<char> {
+    let mut v: Vec<char> = vec![
+        '\u{feff}', '\u{200b}', '\u{200c}', '\u{200d}', '\u{200e}', '\u{200f}', '\u{2060}', '\u{ad}', '\u{61c}', '\u{180e}', '\u{7f}', '\u{fe0f}', '\u{301}', '\u{e0041}', '\u{fffd}', '\u{fffe}', '\u{ffff}', '\u{10ffff}', '\u{2028}', '\u{2029}', '\u{202e}',
+    ];
+    v.extend((0u32..0x20).filter_map(char::from_u32));
+    v.extend((0x80u32..0xa0).filter_map(char::from_u32));
+    v
+}
+
 /// replay of a scale case: the final variables (handle names masked)
 pub fn scale_replay(case: &serde_json::Value) -> Option<Result<String, String>> {
     if case["kind"].as_str() != Some("scale") {
